@@ -224,16 +224,17 @@ func (s *spec) text() string {
 // ---------- observed side
 
 type observed struct {
-	termNames  []string
-	sets       map[string][]int // named sets (incl. afterErr)
-	setOrder   []string
-	setofRules map[string][][]int // rules of synthesized setof_* nonterminals, by name
-	cycleErr   bool               // "set complement cannot transitively depend on itself"
-	otherErrs  []string           // errors that are neither conflicts nor the cycle error
-	conflicts  int
-	recovering bool
-	errorSym   int
-	haveParser bool
+	termNames   []string
+	sets        map[string][]int // named sets (incl. afterErr)
+	setOrder    []string
+	setofRules  map[string][][]int // rules of synthesized setof_* nonterminals, by name
+	cycleErr    bool               // "set complement cannot transitively depend on itself"
+	emptySetErr bool               // an in-rule set was rejected because it has no terminals
+	otherErrs   []string           // errors that are neither conflicts nor the cycle error
+	conflicts   int
+	recovering  bool
+	errorSym    int
+	haveParser  bool
 }
 
 func observe(text string) (*observed, error) {
@@ -246,6 +247,8 @@ func observe(text string) (*observed, error) {
 			switch {
 			case strings.Contains(e.Msg, "set complement cannot transitively depend on itself"):
 				o.cycleErr = true
+			case strings.Contains(e.Msg, "token set is empty"):
+				o.emptySetErr = true
 			case strings.Contains(e.Msg, "conflict"):
 				o.conflicts++
 			default:
@@ -485,6 +488,32 @@ func check(s *spec) (v verdict) {
 	}
 	if ref.cycle {
 		return
+	}
+	// A set used inside a rule stands for a choice of its terminals; without terminals it matches
+	// nothing. Rejecting such a grammar is fine, a nonterminal without rules is fine, an %empty rule
+	// (the rule then matches with the set skipped) is not.
+	emptyOcc := -1
+	for i, oc := range ref.occ {
+		if len(oc.val) == 0 && emptyOcc < 0 {
+			emptyOcc = i
+		}
+	}
+	if o.emptySetErr {
+		if emptyOcc < 0 {
+			fail("set-in-rule", "spurious-empty-set-error", "an in-rule set was rejected as empty but every in-rule set has terminals")
+		}
+		v.cycle = true // counted with the rejected texts
+		return
+	}
+	if emptyOcc >= 0 && o.haveParser {
+		for name, rules := range o.setofRules {
+			for _, rhs := range rules {
+				if len(rhs) == 0 {
+					fail("set-in-rule", "empty-set-derives-empty-string", "set(%s) inside a rule has no terminals, yet %s gets an %%empty rule: the rule matches with the set skipped (and first/follow treat the set as not nullable)", ref.occ[emptyOcc].expr, name)
+					return
+				}
+			}
+		}
 	}
 	// named sets
 	for _, d := range s.Sets {
@@ -826,7 +855,7 @@ func run(c *core.Ctx) {
 		"phase D: set(expr) inside a rule for every literal, also self-dependent; phase E: 144 grammars whose nonterminals X2, X3 are reachable only through a lookahead predicate (8 predicates with negations and conjunctions x 3 positions x 3 bodies x 2 input lists) with every atom, complement and compound; phase F: 3 grammars with lists (extracted nonterminals sort before/between/after the declared ones) x every atom over a nonterminal x 8 systems of named sets referring to it at depth 1..3 and fan-out 1..3. 20 %generate per text. evaluations = grammar texts (all distinct, each with ~20 named sets); nontrivial = texts with at least one " +
 		"named set whose value is neither empty nor the whole terminal universe (the per-expression count is distinct_expression_value_pairs)")
 	c.Assume("the complement universe is every terminal of the grammar: eoi, invalid_token, error and all lexer tokens (sides with syntax/set.go; no documentation)")
-	c.Assume("follow/precede never contain eoi; `any` of a nonterminal = terminals occurring in the rules reachable from it; an empty set(...) inside a rule derives the empty string (sides with the implementation)")
+	c.Assume("follow/precede never contain eoi; `any` of a nonterminal = terminals occurring in the rules reachable from it; a set(...) without terminals inside a rule matches nothing (a choice of no terminals): an %empty rule for it is reported as set-in-rule:empty-set-derives-empty-string, rejecting the grammar is accepted")
 	c.Assume("a lookahead marker (?= X & !Y) is an empty (nullable) symbol with empty first/last/any; every nonterminal named in it, negated or not, counts as reachable, so its rules take part in all fixpoints (this is what HEAD does)")
 	c.Assume("%assert directives are parsed and resolved but never enforced by the compiler (compiler/syntax.go collects them, nothing reads them): only their non-interference is checked")
 
